@@ -71,7 +71,7 @@ def plan_events(rng, nev, nant, query_first_prob=0.5):
         else:
             trig = {"global": glob, "perwave": [bool(rng.integers(0, 2)) for _ in range(maxw)], "extra": bool(rng.integers(0, 2))}
         plan.append({"npart": int(rng.integers(1, 6)), "nr": nr, "trig": trig, "query_first": bool(rng.random() < query_first_prob),
-                     "bad": int(rng.integers(0, 6)) if rng.random() < 0.25 else None,
+                     "bad": int(rng.integers(0, 8)) if rng.random() < 0.25 else None,
                      "flavors": [str(rng.choice(["nu_e", "nu_mu_bar", "nu_tau"])) for _ in range(5)], "kinds": [str(rng.choice(["cc", "nc"])) for _ in range(5)]})
     return plan
 
@@ -85,14 +85,17 @@ def open_writer(path, mode, opts, req, ants):
     return w
 
 
-def do_add(w, ants, step, i, opts, req, on_reject=None):
-    """Perform the i-th planned add (preceded by a rejected add when planned).  Returns the model record."""
+def do_add(w, ants, step, i, opts, req, on_reject=None, only_bad=False):
+    """Perform the i-th planned add (preceded by a rejected add when planned).  Returns the model record.
+    only_bad=True performs just the rejected add (used as the very last call of a session) and returns (None, rejected)."""
     from pyrex.particle import Particle, Event
     from pyrex.signals import Signal
     nant = len(ants)
     trig_only = trig_only_of(req)
     npart, nr, trig = step["npart"], step["nr"], step["trig"]
-    ps = [Particle(step["flavors"][k], (i, k, -100 - k), (0, 0, 1), 1e6 * (i + 1) + k, interaction_type=step["kinds"][k]) for k in range(npart)]
+    # every third particle carries an explicitly given total weight (it then differs from survival x interaction weight)
+    ps = [Particle(step["flavors"][k], (i, k, -100 - k), (0, 0, 1), 1e6 * (i + 1) + k, interaction_type=step["kinds"][k], weight=(0.375 + 0.01 * k) if k % 3 == 1 else None)
+          for k in range(npart)]
     for k, p in enumerate(ps):
         p.survival_weight = 0.5 + 0.01 * k
         p.interaction_weight = 1e-3 * (i + 1)
@@ -112,7 +115,7 @@ def do_add(w, ants, step, i, opts, req, on_reject=None):
     T_ = bool(glob)
     written = lambda key: opts[key] and (not trig_only[key] or T_)
     will_reject = {0: written("rays"), 1: opts["triggers"], 2: opts["rays"] or opts["triggers"], 3: written("triggers") and maxw > 0,
-                   4: written("rays") and maxw > 0, 5: written("particles")}
+                   4: written("rays") and maxw > 0, 5: written("particles"), 6: opts["triggers"], 7: opts["triggers"]}
     if step["bad"] is not None and will_reject[step["bad"]]:
         bad = step["bad"]
         try:
@@ -126,8 +129,12 @@ def do_add(w, ants, step, i, opts, req, on_reject=None):
                 w.add(evn, triggered={"global": glob, "perwave": [True] * (max(maxw - 1, 0))} if maxw > 0 else "str", ray_paths=rp, polarizations=pol)
             elif bad == 4:
                 w.add(evn, triggered=trig, ray_paths=rp, polarizations=[p_[:-1] for p_ in pol] if maxw > 0 else None)
-            else:
+            elif bad == 5:
                 w.add("not an event", triggered=trig, ray_paths=rp, polarizations=pol)
+            elif bad == 6:
+                w.add(evn, triggered=np.True_, ray_paths=rp, polarizations=pol)      # a numpy bool is not a supported trigger type (TypeError, not ValueError)
+            else:
+                w.add(evn, triggered="yes", ray_paths=rp, polarizations=pol)
             accepted_bad = True
         except Exception as e:      # noqa: BLE001 -- a rejected add is the planned observation
             accepted_bad = False
@@ -136,10 +143,12 @@ def do_add(w, ants, step, i, opts, req, on_reject=None):
                 on_reject(w, type(e).__name__)
         if accepted_bad:
             return "accepted-bad", rejected
+    if only_bad:
+        return None, rejected
     w.add(evn, triggered=trig, ray_paths=rp, polarizations=pol, events_thrown=2 + i % 3)
     T = bool(glob)
     rec = {"energies": [float(p.energy) for p in ps], "kinds": [p.interaction.kind.name for p in ps], "ids": [int(p.id.value) for p in ps],
-           "vertices": [[float(x) for x in p.vertex] for p in ps], "weights": [[float(p.survival_weight), float(p.interaction_weight)] for p in ps],
+           "vertices": [[float(x) for x in p.vertex] for p in ps], "weights": [[float(p.survival_weight), float(p.interaction_weight), float(p.weight)] for p in ps],
            "thrown": 2 + i % 3}
     if trig_only["particles"] and not T:
         rec.update(energies=[], kinds=[], ids=[], vertices=[], weights=[])
@@ -174,7 +183,7 @@ def getrec(e):
         out["kinds"] = [str(p["interaction_name"]) for p in pi] if n > 0 else []
         out["ids"] = [int(p["particle_id"]) for p in pi] if n > 0 else []
         out["vertices"] = [[float(p["vertex_x"]), float(p["vertex_y"]), float(p["vertex_z"])] for p in pi] if n > 0 else []
-        out["weights"] = [[float(p["survival_weight"]), float(p["interaction_weight"])] for p in pi] if n > 0 else []
+        out["weights"] = [[float(p["survival_weight"]), float(p["interaction_weight"]), float(p["weight"])] for p in pi] if n > 0 else []
     except ValueError as err:
         if "not saved" not in str(err):
             raise
